@@ -62,6 +62,10 @@ struct SaveWorld : World {
     void gen(const std::string &prop, Rng &kr, Rng &pr, Knobs &k, Plan &p) override {
         k.assign(1, prop == "C13" ? (kr.chance(0.5) ? 2 : kr.below(2)) : kr.below(3)); const AppDesc &d = app_desc((int)k[0]); auto &P = *d.params;
         size_t focus0 = pr.below(P.size()), focusn = 3 + pr.below(8);
+        // half of the runs work on one leaf's neighbourhood instead: the parameters of its own directory and of every directory above it
+        // (the toggles and selectors that enable, reset or select defaults for it live there)
+        std::vector<int> hood; if (pr.chance(0.5)) { const std::string &fa = P[pr.below(P.size())].addr; std::string fdir = fa.substr(0, fa.rfind('/') + 1);
+            for (size_t q = 0; q < P.size(); q++) { std::string qd = P[q].addr.substr(0, P[q].addr.rfind('/') + 1); if (fdir.compare(0, qd.size(), qd) == 0) hood.push_back((int)q); } }
         bool allow_char_zero = pr.chance(0.1);   // the trigger of a known finding is constructed in 10 % of the runs only, so that it cannot mask other failures
         int n = 1 + (int)pr.below(prop == "C13" ? 18 : (g_tier ? 60 : 24)); bool faults = prop == "C12" && pr.chance(0.5);
         for (int i = 0; i < n; i++) {
@@ -69,7 +73,7 @@ struct SaveWorld : World {
             if (pr.chance(0.15)) { // fill an array with a constant run or an arithmetic sequence (the printer compresses those into ranges)
                 std::vector<int> arrs; for (size_t q = 0; q < P.size(); q++) if (P[q].elems >= 3 && (P[q].type == 'i' || P[q].type == 'f')) arrs.push_back((int)q);
                 if (!arrs.empty()) { o.kind = OP_FILL; o.a[0] = arrs[pr.below(arrs.size())]; o.a[1] = pr.below(12); o.a[2] = (int64_t)pr.below(9) - 4; o.a[3] = pr.chance(0.4) ? 0 : pr.chance(0.5) ? 1 : (int64_t)pr.below(5) - 2; p.push_back(o); if (pr.chance(0.5)) { Op o2 = o; o2.a[1] = pr.below(12); o2.a[2] = (int64_t)pr.below(9) - 4; o2.a[3] = pr.chance(0.5) ? 1 : (int64_t)pr.below(5) - 2; p.push_back(o2); } continue; } }   // often two fills of the same array: a run followed by a sequence
-            if (pr.chance(0.8)) { o.kind = OP_SET; int pi = pr.chance(0.75) ? (int)((focus0 + pr.below(focusn)) % P.size()) : (int)pr.below(P.size()); /* most sets hit a block of related parameters */ const Param &pp = P[pi]; o.a[0] = pi; o.a[1] = pr.below(pp.elems);
+            if (pr.chance(0.8)) { o.kind = OP_SET; int pi = pr.chance(0.75) ? (hood.empty() ? (int)((focus0 + pr.below(focusn)) % P.size()) : hood[pr.below(hood.size())]) : (int)pr.below(P.size()); /* most sets hit a block of related parameters */ const Param &pp = P[pi]; o.a[0] = pi; o.a[1] = pr.below(pp.elems);
                 switch (pp.type) {
                 case 'i': case 'c': { double s = pr.unit(); double lo = std::max(pp.lo, -2147483648.0), hi = std::min(pp.hi, 2147483647.0);
                     o.a[2] = s < 0.6 ? (int64_t)(lo + floor(pr.unit() * (std::min(hi, lo + 400) - lo + 1))) : s < 0.8 ? pr.pick(std::vector<int64_t>{(int64_t)lo, (int64_t)hi, (int64_t)lo - 1, (int64_t)hi + 1, 0, -1}) : (int64_t)(lo + floor(pr.unit() * (hi - lo + 1)));
